@@ -131,6 +131,11 @@ func GenSProgram(t *rapid.T, cfg SGenCfg) SProgram {
 					o.Fail = []int{rapid.IntRange(0, nodes-1).Draw(t, "cpfailnode")}
 				}
 				p.Ops = append(p.Ops, o)
+			} else if cfg.W["setmode"] > 0 && rapid.Bool().Draw(t, "forcerw") {
+				// the rebuilding replica is declared RW through the set-mode API
+				// instead (an operator override): the bookkeeping and the volume
+				// status must follow that mode change like any other
+				p.Ops = append(p.Ops, SOp{K: "setmode", Node: n, Name: "RW"})
 			}
 		case "promote":
 			o := SOp{K: "promote", Node: rapid.IntRange(0, nodes-1).Draw(t, "node"), N: int64(rapid.IntRange(0, 2).Draw(t, "windowwrites")), Seed: rapid.IntRange(1, 5000).Draw(t, "wseed"), Reps: rapid.IntRange(0, 1).Draw(t, "waligned")}
@@ -209,6 +214,10 @@ func GenSProgram(t *rapid.T, cfg SGenCfg) SProgram {
 		case "race":
 			p.Ops = append(p.Ops, SOp{K: "race", Node: rapid.IntRange(1, 3).Draw(t, "writers"), N: int64(rapid.IntRange(3, 40).Draw(t, "per")),
 				Reps: rapid.IntRange(1, 3).Draw(t, "snaps"), Off: int64(rapid.IntRange(0, 3000).Draw(t, "delay")), Len: int64(rapid.IntRange(0, 2000).Draw(t, "spacing"))})
+		case "snaprace":
+			off := rapid.Int64Range(0, total-1).Draw(t, "off")
+			p.Ops = append(p.Ops, SOp{K: "snaprace", Node: rapid.IntRange(0, nodes-1).Draw(t, "node"), Off: off,
+				Len: rapid.Int64Range(1, min64(total-off, 16)).Draw(t, "len"), Seed: rapid.IntRange(1, 250).Draw(t, "seed")})
 		case "promotecp":
 			nf := rapid.IntRange(1, nodes).Draw(t, "ncpfail")
 			p.Ops = append(p.Ops, SOp{K: "promote", Node: rapid.IntRange(0, nodes-1).Draw(t, "node"), Fail: rapid.Permutation(seqInts(nodes)).Draw(t, "cpfailperm")[:nf]})
